@@ -538,4 +538,9 @@ func NewReportTotalsCommand returns (cmd)
   ensures @name [C16] cmd != nil && cmd.Name == "totals"
   ensures @flags [C16] len(cmd.Flags) == 0
 
+
+func NewReportCommand returns (cmd)
+  props C16 C08
+  ensures @name [C16] cmd != nil && cmd.Name == "report"
+  ensures @subcommands [C16] len(cmd.Subcommands) == 4 && cmd.Subcommands[0].Name == "element-total" && cmd.Subcommands[1].Name == "unresolved" && cmd.Subcommands[2].Name == "quantity" && cmd.Subcommands[3].Name == "totals"
 @*/
